@@ -8,6 +8,8 @@ NOT_YET = {}
 _TB = ("Trusted: Lean kernel + propext/Classical.choice/Quot.sound; hand-written models (checked against the code by the "
        "correspondence engine on every run, not assumed); generators and canonicalisers. ")
 ENGINES = [
+    {"name": "conc", "path": "go/cmd/corr/conc.go", "serves_properties": ["C06"],
+     "kind_free_text": "concurrency: goroutines on one shared WAF + WAF builders, built with -race; every outcome vs sequential outcome and vs the Lean model"},
     {"name": "nopanic", "path": "go/cmd/corr/nopanic.go", "serves_properties": ["C07"],
      "kind_free_text": "robustness: registry-driven configurations + byte mutations + random API call sequences under recover() and a watchdog"},
     {"name": "http", "path": "go/cmd/corr/httpeng.go", "serves_properties": ["C18"],
@@ -89,6 +91,14 @@ CLAIMED = {
              "unbuffered responses pass through byte-exact. Tied to /repo by `http` (real WrapHandler behind httptest).",
         note=_TB + "Partial: net/http itself (Content-Length enforcement, HTTP/2, hijacking) is outside the model.",
         ref="6/C18", engine="http"),
+    "C06": dict(
+        text="Lean 4 theorems: for any number of transactions and every schedule, steps that read the shared WAF and write "
+             "only their own transaction leave each transaction exactly in its sequential state (C06_noninterference); the "
+             "memoize protocol, modelled at the granularity of sync.Map operations, per-entry mutex sections and singleflight, "
+             "keeps under every interleaving the invariant that any value Do(k,f) returns is f's value for k and never comes "
+             "from an entry marked deleted (C06_memoize, C06_memoize_live). Tied to /repo by `conc` under the race detector.",
+        note=_TB + "Partial: the Go memory model is outside Lean; races are shown by the race detector on the schedules that occur.",
+        ref="6/C06", engine="conc"),
     "C07": dict(
         text="Lean 4: every modelled unit is a total function (termination checked by Lean), and for the sites whose safety "
              "is arithmetic or nil-ness the Go operation is modelled as partial and proved never to fail: the body-write slice "
